@@ -4,6 +4,8 @@ import DelbDriver.Whitespace
 import DelbDriver.XPath
 import DelbDriver.Compare
 import DelbDriver.Serialize
+import DelbDriver.Pretty
+import DelbDriver.Edit
 open Lean DelbDriver
 
 def dispatch (j : Json) : Except String Json := do
@@ -14,6 +16,8 @@ def dispatch (j : Json) : Except String Json := do
   | "parse" => handleParse j
   | "compare" => handleCompare j
   | "serialize" => handleSerialize j
+  | "pretty" => handlePretty j
+  | "edits" => handleEdits j
   | "tokenize" => handleTokenize j
   | "reduce_content" => handleReduceContent j
   | _ => throw s!"unknown cmd {cmd}"
